@@ -113,12 +113,15 @@ def prop(case):
                     e2 = np.abs(Mi.sel(clp_label=b).values - info["matrices"][gi][:, j]).max()
                     check(e2 <= 1e-12 * max(1.0, np.abs(info["matrices"][gi]).max()), "result.matrix_by_label", lambda: f"{lab}@{gv} label {b}: {e2:.3e}")
                 # constrained clps exactly zero / related clps exactly p * source
+                # in a linked group interval items act at the aligned point the index was assigned to (equal to the own value
+                # for clp_link_tolerance 0)
+                ga = info["aligned_targets"][gi] if info.get("aligned_targets") else gv
                 for c in case.get("constraints", []):
-                    if c["target"] in labels and ref.constraint_applies(c, gv):
+                    if c["target"] in labels and ref.constraint_applies(c, ga):
                         v = float(C.sel({"global": gv, "clp_label": c["target"]}))
                         check(v == 0.0, "result.constrained_clp_zero", lambda: f"{lab}@{gv}: clp[{c['target']}]={v}")
                 for rel in case.get("relations", []):
-                    if rel["target"] in labels and rel["source"] in labels and ref.applies(rel["interval"], gv):
+                    if rel["target"] in labels and rel["source"] in labels and ref.applies(rel["interval"], ga):
                         vt = float(C.sel({"global": gv, "clp_label": rel["target"]}))
                         vs = float(C.sel({"global": gv, "clp_label": rel["source"]}))
                         p = vals[rel["parameter"]]
